@@ -1,5 +1,5 @@
 import DcmVerif.Proofs.Code_phoenix
-/-! The tie by proof (extract.py: _parse_phoenix_line): functions translated from the Python source on every run
+/-! The tie by proof (extract.py: _parse_phoenix_line, parse_phoenix_prot): functions translated from the Python source on every run
 (`tools/gen_code.py` → `Generated/Code_phoenix.lean`) are the model functions the property theorems speak about.
 Statements only; proofs are by reference to `Proofs/Code_phoenix.lean`. One file per function group, so that an edit
 of one function only unsettles the properties that depend on it. -/
@@ -17,7 +17,11 @@ theorem parse_phoenix_line_is_model (delim line : Str) (hd : delim ≠ []) :
     Py.parse_phoenix_line line delim = parseLine delim line :=
   Src.parse_phoenix_line_eq delim line hd
 
-/-- the translator translated every function of this group (extract.py: _parse_phoenix_line) -/
+/-- **`parse_phoenix_prot` as written in extract.py is the model's `parseProt`** -/
+theorem parse_phoenix_prot_is_model (key text : Str) : Py.parse_phoenix_prot key text = parseProt key text :=
+  Src.parse_phoenix_prot_eq key text
+
+/-- the translator translated every function of this group (extract.py: _parse_phoenix_line, parse_phoenix_prot) -/
 theorem translator_complete_phoenix : Gen.codeMissing_phoenix = [] := rfl
 
 end Source
